@@ -95,24 +95,25 @@ CLAIMS = {
 
 # what was added to a check after its entry above was written (rounds 2-3 of the seeded changes, DESIGN 11.7-11.10)
 ADDENDA = {
-    "C01": "Also: hostile PAKE bodies (malformed, off-curve, reflected) end in WrongPasswordError; several sessions alive in one process.",
-    "C02": "Run-level phase_at_most_once / each_phase_once_and_honest now PROVED for whole runs (token invariant over Mailbox._processed, Order's queue and the Boss buffers), replacing the per-step partial. Also: bad_pake_scared, message_without_key_scared, relabelled_queued_before_pake_rejected; hold/release/dropmsg schedules; oracle clause relabelled-accepted-as-valid.",
+    "C01": "Also: hostile PAKE bodies (malformed, off-curve, reflected) end in WrongPasswordError; several sessions alive in one process. Round 8: appids differing by invisible characters through the real create(); versions/messages of 2-70 kB; reconnects around the stashed PAKE; glue_is_transparent (timing only records; appid handed unchanged to Boss/Key/RendezvousConnector and into SPAKE2).",
+    "C02": "Run-level phase_at_most_once / each_phase_once_and_honest now PROVED for whole runs (token invariant over Mailbox._processed, Order's queue and the Boss buffers), replacing the per-step partial. Also: bad_pake_scared, message_without_key_scared, relabelled_queued_before_pake_rejected; hold/release/dropmsg schedules; oracle clause relabelled-accepted-as-valid. Round 8: cross-stream (application phases vs dilate seqnums) and cross-client scenarios; boss_reorder_buffers_are_separate.",
     "C03": "Also: buffers_independent (dilate-N vs numbered phases), closing_delivers_nothing, all 18 Boss outputs pinned; close/self-close with parked phases.",
-    "C04": "Channel hypothesis DISCHARGED: net_receiver_success_exact, net_both_success_exact, net_cut_no_success_no_final, net_sender_success_needs_matching_ack, net_first_bad_frame_no_success hold over C06's connection model for every adversary schedule under C06's own ideal-AEAD hypothesis (WV.Proofs.C04_Net).",
-    "C05": "Also: config_cwd_is_process_cwd / dest_is_child_of_process_cwd (entry point builds the Config; $PWD never consulted).",
-    "C07": "same_link now PROVED on a two-sided model (Sender world + Receiver world + links; strangers are the connections that are no link end): both connect() results are the two ends of one link, the one the Sender wrote `go` on, every other connection closed; result_is_negotiated. Also: listener_lifetime, port_closed_after_success / _once_fired / _by_deadline; late arrivals after every outcome.",
-    "C08": "Environment includes hostile mailbox participants (DESIGN 11.7).",
-    "C09": "Also: key_exchange_always_completable — from every reachable state in which a participant with our code exists and nothing has ended the session, a finite cooperative continuation verifies the peer's version, gets our PAKE/version echoed and empties Send's queue (backward-fixpoint certificate, native_decide, lifted by a kernel-checked soundness theorem): no reachable state is a trap for the session; fairness itself is not proved. Environment includes hostile mailbox participants and two-step connection establishment (DESIGN 11.7).",
-    "C10": "End-to-end theorems end_to_end / end_to_end_rev / end_to_end_complete PROVED (application calls on one side -> per-subchannel callbacks on the other, exactly once, in order, boundaries kept, any number of reconnects, parked bursts, late listeners); subchannel_delivery_all_runs replaces the former def. Also: parked-record queue and per-subchannel pending data in the model (ARQ invariant over parked + in flight + unsent), per-step L4 theorems; second world with the real DilatedConnectionProtocol/Connector turn and Noise chunk boundaries.",
-    "C11": "Also: per-direction reachability (one_direction_reachable; reconverge_no_trap in all three networks).",
-    "C12": "Also: explicit 32-bit and chunk-size boundary corpus through whole connections.",
+    "C04": "Channel hypothesis DISCHARGED: net_receiver_success_exact, net_both_success_exact, net_cut_no_success_no_final, net_sender_success_needs_matching_ack, net_first_bad_frame_no_success hold over C06's connection model for every adversary schedule under C06's own ideal-AEAD hypothesis (WV.Proofs.C04_Net). Round 8: extraction failures beyond PATH_MAX (partial tree; extraction_errors_propagate); 14 present-but-not-the-hash JSON values for the ack's sha256 (send_file_ack_check_shape).",
+    "C05": "Also: config_cwd_is_process_cwd / dest_is_child_of_process_cwd (entry point builds the Config; $PWD never consulted). Round 8: refused_file_offer_touches_nothing / refused_directory_offer_touches_nothing; mutation trace (open-for-write, remove, rename, rmtree) besides the snapshots.",
+    "C06": "Round 8: holding transports and consumers that resume inside registerProducer() (holding_transport_prefix, connectConsumer_registers_first).",
+    "C07": "same_link now PROVED on a two-sided model (Sender world + Receiver world + links; strangers are the connections that are no link end): both connect() results are the two ends of one link, the one the Sender wrote `go` on, every other connection closed; result_is_negotiated. Also: listener_lifetime, port_closed_after_success / _once_fired / _by_deadline; late arrivals after every outcome. Round 8: the real HostnameEndpoint's own failures (illegal hostnames), asynchronous port close; start_connector_wiring, connect_failure_is_contender_failure, listener_stop_fire_and_forget.",
+    "C08": "Environment includes hostile mailbox participants (DESIGN 11.7). Round 8: the mood of every `close` frame on the wire is judged against the verdict (mood-mismatch); oracle-only runs on the real connection stack (real ClientService + real autobahn handshake + real server protocol): closed exactly once, nothing after it, documented verdict.",
+    "C09": "Also: key_exchange_always_completable — from every reachable state in which a participant with our code exists and nothing has ended the session, a finite cooperative continuation verifies the peer's version, gets our PAKE/version echoed and empties Send's queue (backward-fixpoint certificate, native_decide, lifted by a kernel-checked soundness theorem): no reachable state is a trap for the session; fairness itself is not proved. Environment includes hostile mailbox participants and two-step connection establishment (DESIGN 11.7). Round 8: oracle-only runs of two clients on the REAL connection stack (real twisted ClientService as the client constructs it, real autobahn handshake with the real server protocol over in-memory pipes; refused and unanswered reconnection attempts, minutes of virtual time, then 400 s of grace) and a long-outage probe (3 000 / 20 000 refused attempts in a row: a next attempt must always be scheduled).",
+    "C10": "End-to-end theorems end_to_end / end_to_end_rev / end_to_end_complete PROVED (application calls on one side -> per-subchannel callbacks on the other, exactly once, in order, boundaries kept, any number of reconnects, parked bursts, late listeners); subchannel_delivery_all_runs replaces the former def. Also: parked-record queue and per-subchannel pending data in the model (ARQ invariant over parked + in flight + unsent), per-step L4 theorems; second world with the real DilatedConnectionProtocol/Connector turn and Noise chunk boundaries. Round 8: both sides built through the public wormhole.create(...).dilate(); expected_subprotocols forwarding pinned through all four layers.",
+    "C11": "Also: per-direction reachability (one_direction_reachable; reconverge_no_trap in all three networks). Round 8: connection attempts are scheduled -> in flight -> answered; in-flight attempts in model and certificates; network changes (cut) in the differential runs.",
+    "C12": "Also: explicit 32-bit and chunk-size boundary corpus through whole connections. Round 8: pausable transport and slow consumers, loss between KCM and the accept turn; flow_control_and_loss_pins, end_to_end_lost_before_select.",
     "C13": "Also: real link layer in the world; parked_open_data_close, watermark_survives_connection_loss, resent_burst_ignored / resent_record_ignored; generated flags for FIFO drain and watermark.",
-    "C14": "Environment includes hostile mailbox participants: unusable PAKE bodies and undecryptable bytes under any phase from a third side, at any time (DESIGN 11.7); this exposed the defect repaired by fix 8eac7fb.",
-    "C15": "Also: subchannel lifecycle (generated SubChannel table) in the Inbound model: resume_forwarded_in_every_state, local_close_keeps_pause, plain-forwarder flags.",
+    "C14": "Environment includes hostile mailbox participants: unusable PAKE bodies and undecryptable bytes under any phase from a third side, at any time (DESIGN 11.7); this exposed the defect repaired by fix 8eac7fb. Round 8: large messages (the stand-in for autobahn raises PayloadExceededError over the real factory's limit), bursts of equal message ids, and oracle-only runs on the real connection stack (nothing escapes an entry point or a timer, nothing is logged as an error, documented verdict exactly once).",
+    "C15": "Also: subchannel lifecycle (generated SubChannel table) in the Inbound model: resume_forwarded_in_every_state, local_close_keeps_pause, plain-forwarder flags. Round 5-8: failing pull turns (pull_failure_unregisters), resume_loop_ends_only_on_none (fix 129b6a1), pre-listen backlog and hand-over to pausing listeners (inbound_open_exact over log-defined wants, backlog_touches_nothing).",
     "C16": "Also: late timer firing (`stall`) — responsive_never_dropped for all stall sequences; per-connection loss reports; second world with the real Connector/DilatedConnectionProtocol.",
-    "C17": "Also: timer handle state (none/pending/fired) and timer_handle_safe; silent-peer close corpus with the real DelayedCall.",
-    "C18": "Environment includes hostile mailbox participants (DESIGN 11.7).",
-    "C20": "Also: hostname classes (IDN, non-IDNA, long/empty labels, NUL, lone surrogates) through the real Twisted endpoints; describe_hint_obj pinned.",
+    "C17": "Also: timer handle state (none/pending/fired) and timer_handle_safe; silent-peer close corpus with the real DelayedCall. Round 8: producers and the Cooperator in the model (cooperator_never_stopped); close() in the middle of a transfer with the real twisted Cooperator.",
+    "C18": "Environment includes hostile mailbox participants (DESIGN 11.7). Round 8: Deferred-mode applications whose callbacks take clock time and read the next message from inside a callback.",
+    "C20": "Also: hostname classes (IDN, non-IDNA, long/empty labels, NUL, lone surrogates) through the real Twisted endpoints; describe_hint_obj pinned. Round 8: fates per started attempt (TCP-level failure, handshake failure, pending) through the real connect(); dead_hint_never_wins, dead_hints_never_abort.",
 }
 EVERY = (" Every check also carries WV.Props.Common.instances_do_not_share_state (no mutable class-level container is mutated through self "
          "anywhere under src/wormhole; generated list) and, in the thorough tier, a leanchecker replay of the property's import closure.")
